@@ -6,6 +6,7 @@ with what the real code produced, plus the grammar oracle.
 import Rsbdd.Driver.FormulaCases
 import Rsbdd.Model.Parser
 import Rsbdd.Spec.Grammar
+import Rsbdd.Spec.Lexer
 
 namespace Rsbdd
 namespace Driver
@@ -157,8 +158,13 @@ def handleC08 (fields : List String) : Verdict :=
           | [_], none => if realAst == "ERR" then some "a sentence of the grammar was rejected" else none
           | _, _ => some "GRAMMAR-SPEC: more than one derivation"
         | none => none
+      -- the lexical specification (longest symbol, digit runs, references, name runs, comments, separators)
+      let o4 := if realToks == "PANIC" then none else
+        let specS := match LexSpec.tokens cs ord with | some ts => showTokens ts | none => "ERR"
+        if specS == realToks then none
+        else some s!"the token list is not the tokenization the language prescribes for this text: expected {specS}"
       { modelOk, modelOut := mToksS ++ " => " ++ (match mAst with | some _ => "OK" | none => "ERR"),
-        oracle := orElse o0 (orElse o1 (orElse o2 o3)),
+        oracle := orElse o0 (orElse o1 (orElse o2 (orElse o3 o4))),
         nontrivial := realAst != "ERR" }
     | some none, _ =>
       -- invalid UTF-8: must be an error
